@@ -84,3 +84,8 @@ def run(ck):
     roots = [p for p in cg.bodies if p.endswith("::deserial") and "common::serialize::Deserial" in p]
     alloc_err_sweep(ck, cg, roots, bounded_types=("PayloadSize", "UpdateHeader"), floor=15, err_exceptions=ERR_EXCEPTIONS,
                     alloc_exceptions={"concordium_base::transactions::get_encoded_payload": "its length parameter has type PayloadSize, bounded by MAX_PAYLOAD_SIZE in PayloadSize::deserial (CMP instance above)"})
+
+    # canonical decoding of group elements and scalars (shared with C20): a reducing or unchecked decoder gives every
+    # proof, key and ciphertext a second accepted encoding
+    from .c20 import canonical_decoders
+    canonical_decoders(ck, c)
